@@ -63,11 +63,12 @@ class SpectralAnalyzer(BaseAnalyzer):
         """
         BaseAnalyzer.__init__(self, input)
 
-        self.method = method
-
-        if self.method is None:
+        if method is None:
             self.method = {'this_method': 'welch',
                            'Fs': self.input.sampling_rate}
+        else:
+            # work on a copy: psd writes 'this_method' and 'Fs' into it
+            self.method = dict(method)
 
         self.BW = BW
         self.adaptive = adaptive
